@@ -262,3 +262,18 @@ Qed.
 Definition olist {A} (o : option A) : list A := match o with Some x => [x] | None => [] end.
 Definition allocs (evs : list event) : list blk :=
   flat_map (fun e => match e with Alloc b _ _ => [b] | Realloc _ n _ => [n] | _ => [] end) evs.
+
+(* a block that is owned after an event list and was not owned before was allocated by that event list
+   (a container can only come to own memory it allocated itself - never a block of the caller) *)
+Lemma new_owned_allocated evs : forall l b, safe l evs -> own l b = false -> own (run l evs) b = true -> In b (allocs evs).
+Proof.
+  induction evs as [|e r IH]; simpl; intros l b S O R; [congruence|].
+  destruct S as [P S]. unfold allocs in *. simpl. apply in_or_app.
+  destruct (own (upd l e) b) eqn:U.
+  - left. destruct e; simpl in *; try congruence.
+    + destruct (N.eqb_spec b b0); simpl in U; [subst; auto|congruence].
+    + destruct (N.eqb_spec b n); simpl in U; [subst; auto|]. rewrite O in U. rewrite andb_false_r in U. discriminate.
+    + rewrite O, andb_false_r in U. discriminate.
+    + rewrite O, andb_false_r in U. discriminate.
+  - right. eapply IH; eauto.
+Qed.
